@@ -35,6 +35,9 @@ def worker(job):
     seed, tier = job
     rng = random.Random(f"c07/{seed}")
     fam = None if seed % 3 else ["inplace", "inplace", "index", "binary", "where", "layout", "reduce", "nullable", "cast"]
+    if seed % 3 == 1:
+        # short chains of selections and reductions: value-dependent folds must not fire on placeholder-dependent operands
+        fam = ["reduce", "reduce", "index", "index", "logical", "cmp", "unary", "layout", "sort", "creation"]
     prog = progs.generate(rng, seed=seed, families=fam, n_inputs=(2, 3),
                           sizes={"A": rng.choice([1, 2, 3]), "B": rng.choice([1, 2, 3])})
     if prog is None:
@@ -81,6 +84,28 @@ def worker(job):
                 if tuple(v.shape) != tuple(r.shape):
                     rec["fail"].append({**case, "kind": "shape-differs-from-value", "step": j,
                                         "op": prog["steps"][j]["op"], "detail": [list(v.shape), list(r.shape)]})
+        # soundness against the truth: a value reported for a step that (syntactically) depends on a placeholder
+        # must be the step's eager result under *every* assignment of the placeholders
+        if S and valued:
+            try:
+                truth = {}
+                for label, sd in (("original", seed), ("other", seed + 7919)):
+                    vv = progs.eager_inputs(prog, sizes, sd)
+                    mixed = [vv[k] if k in S else vals[k] for k in range(n)]
+                    rs = progs.execute(prog, [ndx.asarray(v) for v in mixed])
+                    truth[label] = [r.to_numpy() for r in rs]
+                for j in valued:
+                    if not (dep[j] & S):
+                        continue
+                    for label in ("original", "other"):
+                        if truth[label][j] is not None and not progs.same_value(truth[label][j], reported[j]):
+                            rec["fail"].append({**case, "kind": "value-reported-for-placeholder-dependent-result", "step": j,
+                                                "op": prog["steps"][j]["op"], "assignment": label,
+                                                "reported": str(impl.canon(reported[j]))[:300],
+                                                "eager": str(impl.canon(truth[label][j]))[:300]})
+                            break
+            except Exception:
+                pass
         # soundness: reported values vs the exported model under two placeholder assignments
         if S and valued:
             other = progs.eager_inputs(prog, sizes, seed + 7919)
@@ -141,7 +166,7 @@ def run(ctx: common.Ctx):
                           {"history": h, "implementation": g, "model": w})
     ctx.extra["histories"] = nh
     # ---- (2) programs ------------------------------------------------------------------------------
-    n = 150 if ctx.tier == "quick" else 2000
+    n = 300 if ctx.tier == "quick" else 3000
     recs = tables.pmap(worker, [(ctx.seed * 100003 + k, ctx.tier) for k in range(n)], chunk=4)
     from .c01 import report
     report(ctx, recs, "C07")
